@@ -774,6 +774,75 @@ func ruleR05h(c *Ctx) {
 		})
 	}
 	c.floor("R05h", "manual rewinds by an amount", 3, n)
+	// single steps back (pos--): fine on their own, but in a loop the scan backwards must stop at the token start
+	for fn, fd := range pf.funcs {
+		_ = fn
+		if !nodeScopedTo(fd, pf.info, pf.lexerTypes) {
+			continue
+		}
+		ord := 0
+		var loops []*ast.ForStmt
+		var visit func(n ast.Node)
+		visit = func(n ast.Node) {
+			ast.Inspect(n, func(x ast.Node) bool {
+				switch s := x.(type) {
+				case *ast.ForStmt:
+					loops = append(loops, s)
+					if s.Init != nil {
+						visit(s.Init)
+					}
+					if s.Post != nil {
+						visit(s.Post)
+					}
+					visit(s.Body)
+					loops = loops[:len(loops)-1]
+					return false
+				case *ast.IncDecStmt:
+					se, ok := ast.Unparen(s.X).(*ast.SelectorExpr)
+					if !ok || se.Sel.Name != "pos" || s.Tok != token.DEC {
+						return true
+					}
+					if tv, ok := pf.info.Types[se.X]; !ok || namedOf(tv.Type) == nil || !pf.lexerTypes[namedOf(tv.Type)] {
+						return true
+					}
+					if len(loops) == 0 {
+						return true
+					}
+					loop := loops[len(loops)-1]
+					// a step back after a read, once per iteration of a forward scan, is not a backward scan
+					reads := false
+					ast.Inspect(loop, func(y ast.Node) bool {
+						if call, ok := y.(*ast.CallExpr); ok {
+							if cal := calleeFunc(call, pf.info); cal != nil && pf.runePrims[cal] {
+								reads = true
+							}
+						}
+						return true
+					})
+					if reads {
+						return true
+					}
+					ord++
+					pos := exprKey(s.X)
+					start := exprKey(se.X) + ".start"
+					bounded := false
+					if loop.Cond != nil {
+						facts, _ := condFacts(loop.Cond)
+						for _, f := range facts {
+							if f == start+" < "+pos || f == start+" <= "+pos+" - 1" || f == start+" < "+pos+" - 1" || f == start+" <= "+pos {
+								bounded = true
+							}
+						}
+					}
+					c.check(bounded, "R05h", fmt.Sprintf("%s backward-scan#%d", c.declKey("parse", fd), ord), s.Pos(),
+						"the backward scan stops at the start of the pending token",
+						"the scanner walks its position backwards in a loop whose condition does not keep it above "+start+": on input where everything before is skippable it crosses the token start, and the next emit slices the input with start > pos (a fault in the scanner goroutine, which nothing recovers)")
+				}
+				return true
+			})
+		}
+		visit(fd.Body)
+	}
 }
 
 func identOf(e ast.Expr) *ast.Ident {
@@ -866,4 +935,202 @@ func ruleR05i(c *Ctx) {
 		})
 	}
 	c.floor("R05i", "computed slice bounds in string helpers", 1, n)
+}
+
+// R05j: the parser never indexes a string (or slice) it got from the input at a constant position without
+// having established that the position exists: s[K] is dominated by s != "" (for K = 0), by a comparison of
+// len(s) that implies len(s) > K, or by an early exit on the short case. (An attribute such as name="" is
+// input too; tree.recover re-panics runtime errors, so an unguarded index is a crash of the caller.)
+func ruleR05j(c *Ctx) {
+	pf := getParseFacts(c)
+	if pf == nil {
+		return
+	}
+	info := pf.info
+	nr := newNoRet(c)
+	n := 0
+	var fns []*types.Func
+	for fn := range pf.funcs {
+		fns = append(fns, fn)
+	}
+	sort.Slice(fns, func(i, j int) bool { return c.declKey("parse", pf.funcs[fns[i]]) < c.declKey("parse", pf.funcs[fns[j]]) })
+	for _, fn := range fns {
+		fd := pf.funcs[fn]
+		alias := map[string]string{}
+		ast.Inspect(fd.Body, func(x ast.Node) bool {
+			if as, ok := x.(*ast.AssignStmt); ok && len(as.Lhs) == 1 && len(as.Rhs) == 1 {
+				if call, ok := ast.Unparen(as.Rhs[0]).(*ast.CallExpr); ok {
+					if id, ok := call.Fun.(*ast.Ident); ok && id.Name == "len" && len(call.Args) == 1 {
+						alias[exprKey(as.Lhs[0])] = "len(" + exprKey(call.Args[0]) + ")"
+					}
+				}
+			}
+			return true
+		})
+		ord := 0
+		guardWalk(fd.Body, nr.forInfo(info), func(e ast.Expr, facts factSet) {
+			ix, ok := e.(*ast.IndexExpr)
+			if !ok {
+				return
+			}
+			tv, ok := info.Types[ix.X]
+			if !ok || tv.IsType() {
+				return
+			}
+			isString := false
+			switch u := tv.Type.Underlying().(type) {
+			case *types.Basic:
+				isString = u.Info()&types.IsString != 0
+			case *types.Slice:
+				// slices of the module's own values (token lists, node lists); library results such as
+				// regexp index pairs have a shape the library guarantees
+				if _, _, mod := relPkgOfType(u.Elem()); !mod && !types.IsInterface(u.Elem()) {
+					return
+				}
+			default:
+				return
+			}
+			itv, ok := info.Types[ix.Index]
+			if !ok || itv.Value == nil {
+				return
+			}
+			k, _ := constant.Int64Val(itv.Value)
+			// only values that come from the input: parameters, locals, token text (not the parser's own tables)
+			if id := rootIdent(ix.X); id == nil {
+				return
+			} else if v, ok := info.Uses[id].(*types.Var); !ok || v.Parent() == v.Pkg().Scope() {
+				return
+			}
+			n++
+			ord++
+			x := exprKey(ix.X)
+			lenX := "len(" + x + ")"
+			good := false
+			norm := func(t string) string {
+				if b, ok := alias[t]; ok {
+					return b
+				}
+				return t
+			}
+			num := func(t string) (int64, bool) {
+				var m int64
+				if _, err := fmt.Sscanf(t, "%d", &m); err == nil && fmt.Sprint(m) == t {
+					return m, true
+				}
+				return 0, false
+			}
+			for f := range facts {
+				// facts are "a op b" with op in < <= == != (relations are normalised to < and <=)
+				var a, op, b string
+				for _, o := range []string{" <= ", " < ", " == ", " != "} {
+					if i := strings.Index(f, o); i > 0 {
+						a, op, b = norm(f[:i]), strings.TrimSpace(o), norm(f[i+len(o):])
+						break
+					}
+				}
+				switch {
+				case isString && k == 0 && op == "!=" && ((a == x && b == `""`) || (b == x && a == `""`)):
+					good = true
+				case op == "!=" && k == 0 && ((a == lenX && b == "0") || (b == lenX && a == "0")):
+					good = true
+				case b == lenX && (op == "<=" || op == "<"):
+					if m, ok := num(a); ok && ((op == "<=" && m > k) || (op == "<" && m >= k)) {
+						good = true
+					}
+				case op == "==" && (a == lenX || b == lenX):
+					other := b
+					if b == lenX {
+						other = a
+					}
+					if m, ok := num(other); ok && m > k {
+						good = true
+					}
+				}
+			}
+			c.check(good, "R05j", fmt.Sprintf("%s constant-index#%d %s", c.declKey("parse", fd), ord, exprKey(ix)), ix.Pos(),
+				"the position is known to exist before it is read",
+				exprKey(ix)+" is read without a dominating test that "+x+" is long enough: an empty (or short) value from the input makes the index fault, and the parser re-panics runtime errors instead of returning an error")
+		})
+	}
+	c.floor("R05j", "constant-position reads of input strings and slices in the parser", 3, n)
+}
+
+func rootIdent(e ast.Expr) *ast.Ident {
+	for {
+		switch x := ast.Unparen(e).(type) {
+		case *ast.Ident:
+			return x
+		case *ast.SelectorExpr:
+			e = x.X
+		case *ast.IndexExpr:
+			e = x.X
+		default:
+			return nil
+		}
+	}
+}
+
+// R05k: the scanner's character predicates are total on the end-of-input sentinel. eof is a negative rune, so
+// wherever a function of parse indexes a table (array, slice or string) by a rune parameter, the index is
+// dominated by a test that the rune is not negative (0 <= r, r >= 0, r != eof, eof < r). The scanner calls
+// these predicates on l.next() in its own goroutine, where a fault cannot be recovered.
+func ruleR05k(c *Ctx) {
+	pf := getParseFacts(c)
+	if pf == nil {
+		return
+	}
+	info := pf.info
+	nr := newNoRet(c)
+	n, nfun := 0, 0
+	var fns []*types.Func
+	for fn := range pf.funcs {
+		fns = append(fns, fn)
+	}
+	sort.Slice(fns, func(i, j int) bool { return c.declKey("parse", pf.funcs[fns[i]]) < c.declKey("parse", pf.funcs[fns[j]]) })
+	for _, fn := range fns {
+		fd := pf.funcs[fn]
+		runes := map[types.Object]bool{}
+		for _, fl := range fd.Type.Params.List {
+			for _, nm := range fl.Names {
+				if o := info.Defs[nm]; o != nil {
+					if b, ok := o.Type().Underlying().(*types.Basic); ok && (b.Kind() == types.Int32 || b.Kind() == types.Int) {
+						runes[o] = true
+					}
+				}
+			}
+		}
+		if len(runes) == 0 {
+			continue
+		}
+		nfun++
+		ord := 0
+		guardWalk(fd.Body, nr.forInfo(info), func(e ast.Expr, facts factSet) {
+			ix, ok := e.(*ast.IndexExpr)
+			if !ok {
+				return
+			}
+			tv, ok := info.Types[ix.X]
+			if !ok || tv.IsType() {
+				return
+			}
+			switch tv.Type.Underlying().(type) {
+			case *types.Array, *types.Slice, *types.Basic:
+			case *types.Pointer:
+			default:
+				return
+			}
+			id, ok := ast.Unparen(ix.Index).(*ast.Ident)
+			if !ok || !runes[info.Uses[id]] {
+				return
+			}
+			n++
+			ord++
+			r := id.Name
+			good := facts["0 <= "+r] || facts["-1 < "+r] || facts[r+" != eof"] || facts["eof != "+r] || facts["eof < "+r] || facts[r+" != -1"]
+			c.check(good, "R05k", fmt.Sprintf("%s table-index#%d %s", c.declKey("parse", fd), ord, exprKey(ix)), ix.Pos(),
+				"the rune is known not to be negative where it indexes the table",
+				exprKey(ix)+" indexes a table by a rune that may be the end-of-input sentinel (-1): nothing before it excludes a negative value, so at end of input the predicate faults, in the scanner goroutine")
+		})
+	}
+	c.floor("R05k", "functions of parse with a rune parameter", 5, nfun)
 }
